@@ -96,9 +96,22 @@ struct CfiCase {
     sh: u64,
 }
 
+/// a dump of the repository's testdata with the repository's symbol directory
+#[derive(Clone, Debug)]
+struct FileCase {
+    name: String,
+    feat: u32,
+    /// every lookup is suspended `fnv(code_file, seed_i) % (k+1)` times under schedule i
+    k: u32,
+    runs: u32,
+    execs: String,
+    rs: u64,
+}
+
 enum Case {
     Run(RunCase),
     Cfi(CfiCase),
+    File(FileCase),
 }
 
 fn field<'a>(f: &'a str, pfx: &str) -> Option<&'a str> {
@@ -178,6 +191,28 @@ fn parse_case(case: &str) -> Option<Case> {
                 evil,
             }))
         }
+        "file" => {
+            if f.len() != 8 {
+                return None;
+            }
+            let name = field(f[2], "d:")?.to_string();
+            if !FILE_DUMPS.contains(&name.as_str()) {
+                return None;
+            }
+            let feat: u32 = field(f[3], "f:")?.parse().ok()?;
+            let execs = field(f[6], "x:")?.to_string();
+            if feat > 2 || execs.chars().any(|c| !"BRT".contains(c)) {
+                return None;
+            }
+            Some(Case::File(FileCase {
+                name,
+                feat,
+                k: field(f[4], "k:")?.parse().ok()?,
+                runs: field(f[5], "runs:")?.parse().ok()?,
+                execs,
+                rs: field(f[7], "rs:")?.parse().ok()?,
+            }))
+        }
         "cfi" => {
             if f.len() != 5 {
                 return None;
@@ -252,6 +287,12 @@ fn render_run(c: &RunCase) -> String {
         c.rs,
         c.evil
     )
+}
+
+const FILE_DUMPS: &[&str] = &["test.dmp", "linux-mini.dmp", "simple-crashpad.dmp", "pipeline-inlines-macos-segv.dmp", "invalid-parameter.dmp"];
+
+fn render_file(c: &FileCase) -> String {
+    format!("det file d:{} f:{} k:{} runs:{} x:{} rs:{}", c.name, c.feat, c.k, c.runs, c.execs, c.rs)
 }
 
 fn render_cfi(c: &CfiCase) -> String {
@@ -506,6 +547,57 @@ impl Future for Gate {
     }
 }
 
+/// suspend the calling supplier `k` times in the way `mode` says
+async fn suspend(mode: &GateMode, k: u32) {
+    match mode {
+        GateMode::Auto => Gate { remaining: k, ctl: None, ticket: 0 }.await,
+        GateMode::Ctl(ctl) => {
+            let ticket = {
+                let mut n = ctl.next.lock().unwrap();
+                *n += 1;
+                *n
+            };
+            Gate { remaining: k, ctl: Some(ctl.clone()), ticket }.await
+        }
+        GateMode::Spawn => {
+            let h = tokio::spawn(async move {
+                for _ in 0..k {
+                    tokio::task::yield_now().await;
+                }
+                if k % 3 == 2 {
+                    tokio::time::sleep(std::time::Duration::from_micros(50 * k as u64)).await;
+                }
+            });
+            let _ = h.await;
+        }
+    }
+}
+
+/// the repository's `SimpleSymbolSupplier` behind a gate: lookups complete in an order decided by
+/// the schedule seed
+struct DelaySup {
+    inner: breakpad_symbols::SimpleSymbolSupplier,
+    k: u32,
+    seed: u64,
+    mode: GateMode,
+    done: Arc<Mutex<Vec<String>>>,
+}
+
+#[async_trait]
+impl SymbolSupplier for DelaySup {
+    async fn locate_symbols(&self, module: &(dyn Module + Sync)) -> Result<LocateSymbolsResult, SymbolError> {
+        let name = module.code_file().to_string();
+        let d = (fnv64(name.as_bytes()) ^ self.seed.wrapping_mul(0x9E37_79B9_7F4A_7C15)) >> 17;
+        suspend(&self.mode, (d % (self.k as u64 + 1)) as u32).await;
+        let r = self.inner.locate_symbols(module).await;
+        self.done.lock().unwrap().push(leaf_of(&name).to_string());
+        r
+    }
+    async fn locate_file(&self, module: &(dyn Module + Sync), file_kind: FileKind) -> Result<PathBuf, FileError> {
+        self.inner.locate_file(module, file_kind).await
+    }
+}
+
 struct Sup {
     /// code_file -> module index
     index: BTreeMap<String, usize>,
@@ -524,28 +616,7 @@ impl SymbolSupplier for Sup {
         let i = *self.index.get(module.code_file().as_ref()).expect("det: unknown module");
         self.started.lock().unwrap().push(i);
         let k = self.delays[i];
-        match &self.mode {
-            GateMode::Auto => Gate { remaining: k, ctl: None, ticket: 0 }.await,
-            GateMode::Ctl(ctl) => {
-                let ticket = {
-                    let mut n = ctl.next.lock().unwrap();
-                    *n += 1;
-                    *n
-                };
-                Gate { remaining: k, ctl: Some(ctl.clone()), ticket }.await
-            }
-            GateMode::Spawn => {
-                let h = tokio::spawn(async move {
-                    for _ in 0..k {
-                        tokio::task::yield_now().await;
-                    }
-                    if k % 3 == 2 {
-                        tokio::time::sleep(std::time::Duration::from_micros(50 * k as u64)).await;
-                    }
-                });
-                let _ = h.await;
-            }
-        }
+        suspend(&self.mode, k).await;
         self.done.lock().unwrap().push(i);
         match self.res[i] {
             Res::Ok => {
@@ -729,6 +800,133 @@ fn run_once(bytes: &[u8], c: &RunCase, text: &Arc<Vec<String>>, evil: Option<&st
         out.state = Some(state);
     }
     out
+}
+
+fn repo_dir() -> PathBuf {
+    PathBuf::from(std::env::var("VERIF_REPO").unwrap_or_else(|_| "/repo".into()))
+}
+
+/// one run of a testdata dump with the repository's symbols
+fn run_file_once(bytes: &[u8], c: &FileCase, sched_seed: u64, exec: char, seed: u64) -> (RunOut, Vec<String>) {
+    let mut out = RunOut::default();
+    let dump = match Minidump::read(bytes) {
+        Ok(d) => d,
+        Err(e) => {
+            out.err = Some(format!("read: {e}"));
+            return (out, vec![]);
+        }
+    };
+    let ctl = Arc::new(Ctl::default());
+    let done = Arc::new(Mutex::new(vec![]));
+    let sup = DelaySup {
+        inner: breakpad_symbols::SimpleSymbolSupplier::new(vec![repo_dir().join("testdata/symbols")]),
+        k: c.k,
+        seed: sched_seed,
+        mode: match exec {
+            'R' => GateMode::Ctl(ctl.clone()),
+            'T' => GateMode::Spawn,
+            _ => GateMode::Auto,
+        },
+        done: done.clone(),
+    };
+    let provider = minidump_unwind::Symbolizer::new(sup);
+    let mut options = match c.feat {
+        0 => ProcessorOptions::default(),
+        1 => ProcessorOptions::stable_all(),
+        _ => ProcessorOptions::unstable_all(),
+    };
+    options.evil_json = None;
+    let fut = minidump_processor::process_minidump_with_options(&dump, &provider, options);
+    let state = match exec {
+        'R' => {
+            let mut rng = Rng::new(seed);
+            block_on_random(fut, &ctl, &mut rng)
+        }
+        'T' => Ok(tokio_rt().block_on(fut)),
+        _ => block_on_simple(fut),
+    };
+    let done = done.lock().unwrap().clone();
+    let state = match state {
+        Ok(Ok(s)) => s,
+        Ok(Err(e)) => {
+            out.err = Some(format!("process: {e}"));
+            return (out, done);
+        }
+        Err(e) => {
+            out.err = Some(format!("hang: {e}"));
+            return (out, done);
+        }
+    };
+    let _ = state.print_json(&mut out.bytes[0], false).map_err(|e| out.err = Some(format!("print_json: {e}")));
+    let _ = state.print_json(&mut out.bytes[1], true).map_err(|e| out.err = Some(format!("print_json(pretty): {e}")));
+    let _ = state.print(&mut out.bytes[2]).map_err(|e| out.err = Some(format!("print: {e}")));
+    let _ = state.print_brief(&mut out.bytes[3]).map_err(|e| out.err = Some(format!("print_brief: {e}")));
+    (out, done)
+}
+
+fn exec_file(c: &FileCase) -> ImplResult {
+    let mut res = ImplResult::default();
+    let bytes = match std::fs::read(repo_dir().join("testdata").join(&c.name)) {
+        Ok(b) => b,
+        Err(e) => {
+            res.out = format!("ERR cannot read {}: {e}", c.name);
+            res.oracle.push(("testdata-missing".into(), res.out.clone()));
+            return res;
+        }
+    };
+    let (base, base_done) = run_file_once(&bytes, c, c.rs, 'B', c.rs);
+    let mut n_runs = 1;
+    let mut orders: BTreeSet<Vec<String>> = BTreeSet::new();
+    orders.insert(base_done.clone());
+    let diff = |o: &RunOut, kind: &str, what: &str, oracle: &mut Vec<(String, String)>| {
+        if o.err != base.err {
+            oracle.push((format!("outcome-differs-across-{kind}"), format!("{what}: {:?} (base: {:?})", o.err, base.err)));
+            return;
+        }
+        if let Some(i) = (0..2).find(|i| base.bytes[*i] != o.bytes[*i]) {
+            oracle.push((format!("json-differs-across-{kind}"), format!("{what}: {} differs; {}", WHICH[i], first_diff(&base.bytes[i], &o.bytes[i]))));
+        }
+        if let Some(i) = (2..4).find(|i| base.bytes[*i] != o.bytes[*i]) {
+            oracle.push((format!("text-differs-across-{kind}"), format!("{what}: {} differs; {}", WHICH[i], first_diff(&base.bytes[i], &o.bytes[i]))));
+        }
+    };
+    for r in 1..c.runs {
+        let (o, _) = if r % 2 == 1 {
+            std::thread::scope(|s| s.spawn(|| run_file_once(&bytes, c, c.rs, 'B', c.rs)).join())
+                .unwrap_or_else(|_| (RunOut { err: Some("panic".into()), ..Default::default() }, vec![]))
+        } else {
+            run_file_once(&bytes, c, c.rs, 'B', c.rs)
+        };
+        n_runs += 1;
+        diff(&o, "runs", &format!("run #{r} (executor B, base schedule)"), &mut res.oracle);
+    }
+    for si in 0..3u64 {
+        for x in c.execs.chars() {
+            if si == 0 && x == 'B' {
+                continue;
+            }
+            let (o, d) = run_file_once(&bytes, c, c.rs.wrapping_add(si), x, c.rs.wrapping_add(si * 977));
+            n_runs += 1;
+            orders.insert(d);
+            diff(&o, if si == 0 { "executors" } else { "schedules" }, &format!("executor {x}, schedule seed +{si}"), &mut res.oracle);
+        }
+    }
+    for which in ["json", "text"] {
+        if res.oracle.iter().any(|(cl, _)| *cl == format!("{which}-differs-across-runs")) {
+            res.oracle.retain(|(cl, _)| *cl != format!("{which}-differs-across-schedules") && *cl != format!("{which}-differs-across-executors"));
+        }
+    }
+    let mut seen = BTreeSet::new();
+    res.oracle.retain(|(cl, _)| seen.insert(cl.clone()));
+    res.out = match &base.err {
+        Some(e) => format!("ERR {e}"),
+        None => format!("ok json={:016x}/{} text={:016x}/{}", fnv64(&base.bytes[0]), base.bytes[0].len(), fnv64(&base.bytes[2]), base.bytes[2].len()),
+    };
+    res.nontrivial = base.err.is_none() && n_runs >= 4;
+    res.tags.push("kind:file".into());
+    res.tags.push(format!("file:{}", c.name));
+    res.tags.push(format!("file-distinct-completion-orders:{}", orders.len().min(6)));
+    res
 }
 
 // ----------------------------------------------------------------------------------- the oracle
@@ -1556,6 +1754,24 @@ impl Engine for Det {
         for _ in 0..n_cfi {
             emit(render_cfi(&gen_cfi(rng)));
         }
+        // the repository's own dumps and symbols (x86 Windows with STACK WIN, Linux, macOS with inlines)
+        let n_file = if quick { 60 } else { 1500 };
+        for i in 0..n_file {
+            emit(render_file(&FileCase {
+                name: FILE_DUMPS[i % FILE_DUMPS.len()].to_string(),
+                feat: ((i / FILE_DUMPS.len()) % 3) as u32,
+                k: rng.range(0, 5) as u32,
+                runs: 4,
+                execs: match i % 4 {
+                    0 => "BRT",
+                    1 => "BR",
+                    2 => "BT",
+                    _ => "B",
+                }
+                .to_string(),
+                rs: rng.below(1 << 32),
+            }));
+        }
     }
 
     fn exec(&self, case: &str) -> ImplResult {
@@ -1563,6 +1779,14 @@ impl Engine for Det {
         match parse_case(case) {
             None => ImplResult { out: "bad-op".into(), ..Default::default() },
             Some(Case::Cfi(c)) => exec_cfi(&c),
+            Some(Case::File(c)) => match catch(|| exec_file(&c)) {
+                Ok(r) => r,
+                Err(msg) => ImplResult {
+                    out: "PANIC".into(),
+                    oracle: vec![("panic".into(), msg)],
+                    ..Default::default()
+                },
+            },
             Some(Case::Run(c)) => match catch(|| exec_run(&c)) {
                 Ok(r) => r,
                 Err(msg) => ImplResult {
@@ -1577,6 +1801,8 @@ impl Engine for Det {
     fn model_request(&self, case: &str) -> Option<String> {
         match parse_case(case) {
             None => Some(case.to_string()),
+            // oracle only: no model of whole real-world dumps
+            Some(Case::File(_)) => None,
             Some(Case::Cfi(c)) => {
                 // the model gets the rule MAP (labels and outcomes); how the rules were spread over
                 // records is the engine's business
@@ -1597,6 +1823,22 @@ impl Engine for Det {
         match parse_case(case) {
             Some(Case::Run(c)) => shrink_run(c, still_fails),
             Some(Case::Cfi(c)) => shrink_cfi(c, still_fails),
+            Some(Case::File(mut c)) => {
+                for x in ['T', 'R'] {
+                    if c.execs.contains(x) {
+                        let mut d = c.clone();
+                        d.execs = d.execs.replace(x, "");
+                        if d.execs.is_empty() {
+                            d.execs = "B".into();
+                        }
+                        let s = render_file(&d);
+                        if (0..3).any(|_| still_fails(&s)) {
+                            c = d;
+                        }
+                    }
+                }
+                render_file(&c)
+            }
             None => case.to_string(),
         }
     }
